@@ -256,7 +256,7 @@ PROPS["C12"] = {
     "trusted_base": [T1, T2, T4, T6, T8, VSTD, PERR,
                      "R8 guard lowering (match guards moved into the scrutinee tuple) applied to parse_array_elem_lazy / parse_entry_lazy",
                      "parse_str acceptance contract assumed in this unit (Ok ==> exactly one grammar-valid string consumed)",
-                     "unchecked iterators: of skip_one_unchecked's branches, the string skipper and the number skipper (skip_number_unsafe, on a well-formed number in a well-formed context: found F15) are proved to end where the validating skipper ends (unit unchecked); skip_container and the dispatch itself are not under contract; get_next_token enters through an assumed contract (bounded Kani twin in the thorough tier)",
+                     "unchecked iterators: of skip_one_unchecked's branches, the string skipper and the number skipper (skip_number_unsafe, on a well-formed number in a well-formed context: found F15) are proved to end where the validating skipper ends (unit unchecked); skip_container and the dispatch itself are not under contract; get_next_token is proved in the same unit (32-lane loop + scalar tail: first byte of the token set at/after the reader)",
                      "LazyValue::new / JsonSlice carriers (Bytes, FastStr) are opaque (T4)"],
     "level_text": "Verus proof of the per-call contract of the checked array/object iterators: first call demands the opening bracket, every call yields exactly the next well-formed element's span (after a correct separator / name / colon) or the end or an error, and after an error or the end the iterator yields nothing and does not move (latch); by induction over calls this is the statement",
     "level_note": "checked iterators over the bounds-checked reader; key decoding is parse_str (assumed here)",
@@ -313,10 +313,10 @@ PROPS["C10"] = {
     "kani": K_BITS + K_PXOR + K_STRBITS + K_UNCHECKED,
     "trusted_base": [T1, T2, T3, T4, T6, T8, VSTD, KANI, PERR,
                      "skip_string_unchecked is proved for every WELL-FORMED literal (its unsafe contract); nothing is claimed for it on malformed input",
-                     "skip_container_loop (bracket counting over 64-bit masks) is NOT decided: CBMC does not finish; skip_container, get_next_token (bounded Kani twin only, thorough tier) and the unchecked walkers are not under contract",
+                     "skip_container / skip_container_loop (bracket counting over 64-bit masks) is NOT decided: CBMC does not finish; it enters the unchecked walkers through an assumed contract (well-formed container => stops just after its closing bracket); get_next_token is proved in unit unchecked (the other units use that contract), with a bounded Kani twin in the thorough tier; three declared substitutions in get_next_token: `r` alias of self.read, `tokens.iter().take(N)` -> `tokens.iter()` (N is the array length), `vor |= x` -> `vor = vor | x` (both operators are proved equal lane-wise under C17)",
                      "decoded()/decodable() of member names are uninterpreted in unit walkers (decoder contracts: C09)"],
     "level_text": "Verus proof that the checked walkers get_from_object_checked / get_from_array_checked stop exactly at the value of the FIRST member whose decoded name equals the key (resp. the i-th element) and only after a well-formed prefix (object_lookup / array_lookup specs); Verus proof that the UNCHECKED walkers get_from_object / get_from_array, started on a well-formed value, give the same answer as the checked ones (same lookup specs); Verus proof that skip_string_unchecked — 32-lane loop with the escape carry, early-exit test and scalar tail — and skip_number_unsafe end on every well-formed literal of any length exactly where the validating skipper ends, with the same escape status; Kani/CBMC complete proofs of the unchecked skipper's bit kernels (escaped bits with carry, prefix xor, the 64-byte in-string mask with both carries)",
-    "level_note": "unchecked side: walkers, string and number skippers proved; skip_container (bracket-counting bitmap loop) and get_next_token enter through ASSUMED contracts (their bit kernels are proved by Kani; bounded twins in the thorough tier); get_from_with_iter's generic path loop and the input carriers are not under contract",
+    "level_note": "unchecked side: walkers, string and number skippers proved; skip_container (bracket-counting bitmap loop) enters through an ASSUMED contract (its bit kernels are proved by Kani); get_next_token is proved in unit unchecked and used through that contract elsewhere; get_from_with_iter's generic path loop and the input carriers are not under contract",
     "technique": TECH_K,
     "explanation": "bit kernels of the unchecked skipper equal their scalar definitions",
 }
